@@ -1,12 +1,82 @@
 """C09 runtime correspondence check (see DESIGN.md)."""
-from . import rtprop
+import os, random, re
+from multiprocessing import Pool
+from . import rtprop, flexrun, rules, tv
 
-THEOREMS = ['FlexVerif.beginMatch_lnTotal', 'FlexVerif.less_lnTotal', 'FlexVerif.unput_lnTotal', 'FlexVerif.input_lnTotal']
+THEOREMS = ['FlexVerif.beginMatch_lnTotal', 'FlexVerif.less_lnTotal', 'FlexVerif.unput_lnTotal', 'FlexVerif.input_lnTotal',
+            'FlexVerif.Re.canNl_iff', 'FlexVerif.Re.nonEmpty_iff']
+
+
+def _eol_job(job):
+    """yy_rule_can_match_eol against Re.canNl (exact by canNl_iff) for one generated rule set"""
+    (flex, work, idx, seed) = job
+    rng = random.Random(seed)
+    rs = rules.gen_ruleset(rng, p_trail=0.3, nrules=rng.choice([2, 4, 8, 15]), p_chain=rng.choice([0.0, 0.2]))
+    topt = rng.choice(tv.TABLE_OPTS)
+    lex = rs.to_lex(random.Random(seed ^ 5), extra_options=['yylineno'])
+    lf = os.path.join(work, 'c09e_%d.l' % idx)
+    cf = lf + '.c'
+    open(lf, 'w', encoding='latin1').write(lex)
+    opts = tv.opts_for(rs, topt)
+    rc, so, se = flexrun.run_flex(flex, lf, cf, opts, timeout=10)
+    res = {'idx': idx, 'lex': lex, 'opts': opts, 'problems': [], 'rules': 0, 'nl_rules': 0}
+    if rc != 0:
+        res['status'] = 'slow' if rc == -999 else 'flexfail'
+        _rm(lf, cf)
+        return res
+    tl, t, flags = flexrun.table_lines(open(cf, encoding='latin1').read())
+    casef = lf + '.case'
+    open(casef, 'w').write('\n'.join(rs.case_lines(flexrun.var_rules_of(t)) + tl) + '\n')
+    drc, out, err = flexrun.run_driver(['eolflags', casef], timeout=60)
+    chained = {i + 1 for i, r in enumerate(rs.rules) if r.get('chain')}
+    for l in out.split('\n'):
+        m = re.match(r'(rule|default) (\d+) head=(\d) full=(\d) flag=(-?\d+)', l)
+        if not m:
+            continue
+        kind, i, head, full, flag = m.group(1), int(m.group(2)), int(m.group(3)), int(m.group(4)), int(m.group(5))
+        res['rules'] += 1
+        res['nl_rules'] += head
+        if head == 1 and flag != 1:
+            res['problems'].append('%s %d matches text that contains a newline but yy_rule_can_match_eol[%d] = %d: '
+                                   'yylineno misses those newlines' % (kind, i, i, flag))
+    res['status'] = 'ok' if res['rules'] else 'error'
+    if res['status'] == 'error':
+        res['detail'] = (out + err)[-300:]
+    _rm(lf, cf, casef)
+    return res
+
+
+def _rm(*fs):
+    for f in fs:
+        try:
+            os.unlink(f)
+        except OSError:
+            pass
+
+
+def eol_table_check(ctx, results):
+    flex, src = flexrun.build_flex()
+    work = flexrun.scratch_root()
+    n = {'quick': 200, 'thorough': 3000}[ctx.tier]
+    rng = ctx.rng('c09-eol')
+    with Pool(16) as pool:
+        res = pool.map(_eol_job, [(flex, work, i, rng.getrandbits(48)) for i in range(n)], chunksize=4)
+    nprob = 0
+    tot = sum(r['rules'] for r in res)
+    nl = sum(r['nl_rules'] for r in res)
+    for r in res:
+        for p in r['problems']:
+            nprob += 1
+            if nprob <= 6:
+                ctx.violation(p, {'lex': r['lex'], 'opts': r['opts']})
+    ctx.assumptions.append('eol table: %d rules of %d generated rule sets compared with Re.canNl (%d can match a newline); '
+                           'status %s' % (tot, len(res), nl, {s: sum(1 for r in res if r.get('status') == s) for s in {r.get('status') for r in res}}))
 
 
 def run(ctx):
     q1, q2, q3 = {'quick': (64, 48, 32), 'thorough': (600, 400, 200)}[ctx.tier]
     plan = [('lineno', q1, 8), ('reject', q3, 4), ('unput', q3, 4)]
     return rtprop.run(ctx, THEOREMS, plan, 'proof',
-                      'yylineno logged at every action and compared with the abstract count; rules matching newline via classes, negated classes, (?s:.), default rule, trailing context; with less/unput/input/more/REJECT' + '. Kernel-checked theorems about the abstract scanner (listed under obligations) + differential '
-                      'correspondence of the real generated scanner (ASan/UBSan build) with that model on generated cases.')
+                      'yylineno logged at every action and compared with the abstract count; rules matching newline via classes, negated classes, (?s:.), default rule, trailing context; with less/unput/input/more/REJECT; per generated program the emitted yy_rule_can_match_eol is compared with Re.canNl, which by the kernel-checked canNl_iff holds exactly when the rule matches some text containing a newline (the flag must be set for every such rule)' + '. Kernel-checked theorems about the abstract scanner (listed under obligations) + differential '
+                      'correspondence of the real generated scanner (ASan/UBSan build) with that model on generated cases.',
+                      post=eol_table_check)
